@@ -16,9 +16,14 @@ func (s shape) length() int {
 	return (s.n-1)*s.k + s.last
 }
 
+var defaultWriter = "own"
+
 func (s shape) fileCase(id string) *FileCase {
+	if defaultWriter != "own" {
+		id += "-" + defaultWriter
+	}
 	return &FileCase{Fam: "file", ID: id, Len: s.length(), Chunker: fmt.Sprintf("size-%d", s.k), W: s.w,
-		Content: "distinct", Writer: "own", Open: "direct"}
+		Content: "distinct", Writer: defaultWriter, Open: "direct"}
 }
 
 func shapes(maxN int, widths []int, k int) []shape {
@@ -100,12 +105,14 @@ func init() {
 		seed := fs.Int64("seed", 1, "seed")
 		count := fs.Int("count", 50, "random cases")
 		out := fs.String("out", "", "trace output")
+		genWriter := fs.String("writer", "own", "writer for the enumerated shapes: own | own-nobs | boxo-...")
 		fs.Parse(args)
 		tr, err := NewTr(*out)
 		if err != nil {
 			return err
 		}
 		defer tr.Close()
+		defaultWriter = *genWriter
 		var widths []int
 		for w := 2; w <= *wmax; w++ {
 			widths = append(widths, w)
@@ -123,6 +130,9 @@ func init() {
 					for _, b := range uniq([]int{1, 2, sh.k - 1, sh.k, sh.k + 1, 2*sh.k + 1, L, L + 7}) {
 						fc.Script = append(fc.Script, []any{"open", 1}, []any{"readall", 1, b}, []any{"seek", 1, 0, 2})
 					}
+					// rewind / seek-to-end on a reader that has already streamed, then read again
+					fc.Script = append(fc.Script, []any{"read", 1, 2}, []any{"seek", 1, 0, 0}, []any{"read", 1, sh.k + 1},
+						[]any{"seek", 1, 0, 2}, []any{"read", 1, 1}, []any{"seek", 1, 0, 0}, []any{"readall", 1, sh.k + 2})
 					if err := runFileCase(fc, tr); err != nil {
 						return err
 					}
@@ -189,6 +199,22 @@ func init() {
 						fc.NotFound = m%2 == 0
 						fc.Script = [][]any{{"asbytes"}, {"open", 1}, {"readall", 1, 1}, {"open", 2}, {"readall", 2, sh.k + 1},
 							{"open", 3}, {"readall", 3, L + 7}, {"seek", 3, 0, 0}, {"readall", 3, 2}}
+						if err := runFileCase(fc, tr); err != nil {
+							return err
+						}
+					}
+				}
+				// a transient failure of the k-th load issued while a reader positions itself inside a child
+				for _, off := range uniq([]int{1, sh.k + 1, L - 2, sh.k*2 + 1}) {
+					if off >= L {
+						continue
+					}
+					for kth := 1; kth <= 4; kth++ {
+						fc := sh.fileCase(fmt.Sprintf("seekfail-%d-%d-%d-o%d-k%d", sh.n, sh.w, sh.last, off, kth))
+						fc.Mode = "fault"
+						fc.FailAt = kth
+						fc.NotFound = kth%2 == 0
+						fc.Script = [][]any{{"open", 1}, {"seek", 1, off, 0}, {"readall", 1, sh.k + 1}, {"seek", 1, off, 0}, {"readall", 1, 2}}
 						if err := runFileCase(fc, tr); err != nil {
 							return err
 						}
